@@ -43,8 +43,9 @@ class E1Prop:
 @prop("C19")
 class C19(E1Prop):
     pid = "C19"
-    rule = ("cases = extent vectors for covfie::utility::nd_map, N in 1..5, index types size_t/unsigned/int: every vector with extents in 0..B_N "
-            "(exhaustive) plus rapidcheck vectors with extents up to 70 under a 60000-cell cap; oracle = visit count per mixed-radix rank must be "
+    rule = ("cases = extent vectors for covfie::utility::nd_map, N in 1..5, index types size_t/unsigned/int/uint8/uint16: every vector with extents in "
+            "0..B_N (exhaustive) plus rapidcheck vectors with extents up to 70 under a 60000-cell cap, plus boxes too large to enumerate (volume a "
+            "multiple of 2^bits of the index type, and others) probed for their first callback; oracle = visit count per mixed-radix rank must be "
             "exactly 1 and no tuple outside the box; non-trivial = N>=2 and extents not all equal; distinct by (instantiation, extent vector)")
     min_eval = 1000
     level_text = ("Generated-input search: every extent vector up to a per-dimensionality bound is enumerated and larger ones are sampled; each run "
@@ -82,7 +83,7 @@ class C14(E1Prop):
             "corner/centre/random coordinates, position compared with sum_k c_k prod_{l>k} N_l; Morton (BMI2 and portable, static calculate_index and "
             "the layer over identity<size1>): every coordinate with <= b bits per axis, boundary bit patterns (single bits, 2^k-1, alternating masks) on "
             "each axis against all-zero/all-one/alternating backgrounds up to 2^floor(64/N)-1, random masked 64-bit values, compared with a naive bit "
-            "interleave; Hilbert: every cell of the 2^k square for k=0..10, validity predicate (bijection onto [0,4^k), origin first, consecutive "
+            "interleave; Hilbert (size_t/unsigned/int/uint16 coordinates; Morton also with uint16): every cell of the 2^k square for k=0..10, validity predicate (bijection onto [0,4^k), origin first, consecutive "
             "positions edge-adjacent). non-trivial: extents pairwise different / a coordinate with a bit above bit 8 / k>=2; evaluations count "
             "individual position comparisons")
     min_eval = 100000
@@ -200,7 +201,8 @@ class C10(E1Prop):
 class C11(E1Prop):
     pid = "C11"
     rule = ("cases = (box, default value, 8 coordinates) for backup<probe<X^N,T^M>> (probe = user-defined counting backend) with N and M in 1..4 "
-            "independently and X rotating over int/unsigned/long/size_t/float/double, and for backup<strided<I^N,array<float2>>> with a box inside the "
+            "independently and X rotating over int/unsigned/long/size_t/float/double (plus uint8/uint16/short), boxes ordered in seven cases out of "
+            "eight and kept as drawn (possibly inverted: everything is outside) otherwise, and for backup<strided<I^N,array<float2>>> with a box inside the "
             "extents under ASan. Coordinates start on a bound and have a few components replaced by values equal/adjacent (+-1 or +-1 ulp) to a "
             "bound, type extremes, +-inf, +-0 or random bits (NaN excluded). Oracle: outside the closed box -> result is bit-identical to the "
             "configured default and the probe's query count is unchanged; inside -> count + 1, the probe saw exactly the coordinate, the result is "
@@ -385,7 +387,7 @@ class C06(ZooProp):
     pid = "C06"
     mode = "C06"
     rule = ("cases = (serialisable stack from the grammar cover: array, constant, identity, row-major, Morton, Hilbert, clamp, default, affine, "
-            "permutation, cast, dereference, both interpolators; extents 1..7 incl. 1 and non-powers of two; storage and every configuration scalar = "
+            "permutation, cast, dereference, both interpolators; extents 0..7 incl. empty fields, 1 and non-powers of two; storage and every configuration scalar = "
             "arbitrary bit patterns biased to +-0, +-inf, quiet/signalling NaN payloads, subnormals, integer extremes). Oracle: the dump parses under "
             "the independent reference grammar with no trailing bytes and carries exactly the generated configuration words and payload; the "
             "reference printer reproduces the dump byte-for-byte; load(dump) has word-identical configurations at every layer and bit-identical "
@@ -400,8 +402,9 @@ class C06(ZooProp):
 class C17(ZooProp):
     pid = "C17"
     mode = "C17"
-    rule = ("zoo part: (stack from the grammar cover, generated configurations per layer, storage, coordinates) -> get_configuration()/get_backend() "
-            "walked from the outside must yield the generated configuration layer by layer; a field rebuilt from the reported configurations and the "
+    rule = ("zoo part: (stack from the grammar cover, generated configurations per layer, storage incl. empty fields, coordinates) -> "
+            "get_configuration()/get_backend() walked from the outside must yield the generated configuration layer by layer and the array layer the "
+            "length it was constructed with; a field rebuilt from the reported configurations and the "
             "innermost storage reports the same configurations, dumps to the same bytes, holds the same storage and agrees at the generated in-domain "
             "coordinates. helper part: make_parameter_pack_for<F>(a0..a_{d-1}) for stacks of depth 1..10 built from clamp/backup/shuffle/dereference/"
             "cast/affine/nearest/strided layers, every argument derived from its own generated integer; layer i must report argument i. "
@@ -426,7 +429,7 @@ class C08(ZooProp):
     pid = "C08"
     mode = "C08"
     level = "fault_enumeration"
-    rule = ("for every generated dump (stacks of the grammar cover, arbitrary bit patterns): (1) EVERY proper prefix; (2) every header / footer / tag / "
+    rule = ("for every generated dump (stacks of the grammar cover, arbitrary bit patterns, empty fields included): (1) EVERY proper prefix; (2) every header / footer / tag / "
             "float-width word position taken from the reference parser's tree x replacement values {0, ~0, bit flips, +-1, the other magic word, "
             "tag +- footer offset, every other layer tag, widths 0/2/3/12/16, hashed}; (3) the dump loaded as every other stack type of the cover; (4) "
             "a stream whose n-th read request fails, for every n, both as short read + EOF and as an exception thrown by the stream buffer. Oracle: "
